@@ -143,9 +143,10 @@ func suiteAppAuth(e *vh.Env) {
 	e.Result.Rule = "registered backends {b1: agent1/alice, b2: agent2/bob, b3: agent3/allUsers}; stored requests under b1 and b2; every combination of caller identity {none, agent1, agent2, stranger} x backend ID {b1, b2, unknown, empty} x request ID {b1's, b2's, unknown, empty} x endpoint {fetch, respond} (+ list where it cannot block), compared with the model and with the oracles: non-401 only for the registered backend user, a 401 leaves the datastore unchanged and its body does not depend on stored requests; admin API x {anonymous, signed-in non-admin, OAuth non-admin, admins}; end-user routing x {alice, bob, carol, anonymous}; non-trivial = call naming an existing backend with a wrong or missing identity, or a request ID of another backend"
 	fake.reset()
 	bs := []aeBackend{{"b1", "agent1@svc", "alice@x", []string{"/a"}}, {"b2", "agent2@svc", "bob@x", []string{"/b"}}, {"b3", "agent3@svc", "allUsers", []string{"/shared"}},
-		{"b4", "agent4@svc", "dave@x", []string{"/d"}},       // never polled: not live
-		{"b5", "agent5@svc", "allUsers", []string{"/d"}},     // live, shared, same prefix as dave's own dead backend
-		{"b6", "agent6@svc", "alice@x", []string{"/a/deep"}}} // live, more specific than b1 for alice
+		{"b4", "agent4@svc", "dave@x", []string{"/d"}},        // never polled: not live
+		{"b5", "agent5@svc", "allUsers", []string{"/d"}},      // live, shared, same prefix as dave's own dead backend
+		{"b6", "agent6@svc", "alice@x", []string{"/a/deep"}},  // live, more specific than b1 for alice
+		{"b7", "agent7@svc", "Mixed.Case@X", []string{"/mc"}}} // a user whose address has capitals
 	// admin API first: non-admins get 403 and change nothing
 	js1, _ := json.Marshal(types.Backend{BackendID: "evil", BackendUser: "x@y", EndUser: "allUsers", PathPrefixes: []string{"/"}})
 	for i, who := range []struct {
@@ -189,7 +190,8 @@ func suiteAppAuth(e *vh.Env) {
 	l1, l2, l3 := goLive(e, bs[0]), goLive(e, bs[1]), goLive(e, bs[2])
 	goLive(e, bs[4])
 	goLive(e, bs[5])
-	live := hx("b1") + "," + hx("b2") + "," + hx("b3") + "," + hx("b5") + "," + hx("b6")
+	goLive(e, bs[6])
+	live := hx("b1") + "," + hx("b2") + "," + hx("b3") + "," + hx("b5") + "," + hx("b6") + "," + hx("b7")
 	u1 := async(func() (int, http.Header, []byte) {
 		return userCall("alice@x", false, "rid-alice", "POST", "/a/x", nil, []byte("alice-body"))
 	})
@@ -208,13 +210,14 @@ func suiteAppAuth(e *vh.Env) {
 	for i, u := range []struct{ user, path, want string }{{"alice@x", "/a/1", "b1"}, {"alice@x", "/b/1", ""}, {"bob@x", "/b/1", "b2"}, {"carol@x", "/a/1", ""}, {"carol@x", "/shared/z", "b3"}, {"alice@x", "/shared/z", "b3"}, {"", "/a/1", "401"},
 		{"alice@x", "/a/deep/x", "b6"}, {"alice@x", "/a/dee", "b1"}, {"dave@x", "/d/1", ""}, {"carol@x", "/d/1", "b5"}, {"dave@x", "/shared/1", "b3"},
 		// other spellings of the same paths: routing depends on the path, not on how the client escaped it
+		{"Mixed.Case@X", "/mc/1", "b7"}, {"mixed.case@x", "/mc/1", ""},
 		{"alice@x", "/%61/deep/x", "b6"}, {"alice@x", "/a/d%65ep/x", "b6"}, {"alice@x", "/a/deep%2Fx", "b6"}, {"dave@x", "/%64/1", ""}, {"carol@x", "/sh%61red/z", "b3"}} {
 		rid := fmt.Sprintf("route-%d", i)
 		ch := async(func() (int, http.Header, []byte) { return userCall(u.user, false, rid, "GET", u.path, nil, nil) })
 		var got string
 		waitFor(1500*time.Millisecond, func() bool {
 			snap := fake.snapshot()
-			for _, b := range []string{"b1", "b2", "b3", "b4", "b5", "b6"} {
+			for _, b := range []string{"b1", "b2", "b3", "b4", "b5", "b6", "b7"} {
 				if strings.Contains(snap, fmt.Sprintf("req:%q/%s", b, rid)) {
 					got = b
 					return true
@@ -242,7 +245,7 @@ func suiteAppAuth(e *vh.Env) {
 			e.Op(fmt.Sprintf("lookup %s %s %s", hx(u.user), hx(decoded), live), obs)
 		}
 		if got != "" && got != "401" {
-			owner := map[string]string{"b1": "alice@x", "b2": "bob@x", "b3": "allUsers", "b4": "dave@x", "b5": "allUsers", "b6": "alice@x"}[got]
+			owner := map[string]string{"b1": "alice@x", "b2": "bob@x", "b3": "allUsers", "b4": "dave@x", "b5": "allUsers", "b6": "alice@x", "b7": "Mixed.Case@X"}[got]
 			if owner != u.user && owner != "allUsers" {
 				e.Fail("C17:enduser-reached-foreign-backend", fmt.Sprintf("user %q reached backend %s registered for %q", u.user, got, owner), i, nil, nil, nil)
 			}
@@ -330,6 +333,22 @@ func suiteAppAuth(e *vh.Env) {
 	}
 	// hand-over histories: a backend ID is re-registered for another agent account (with and without deleting it
 	// first); the previous account must be refused from then on, however recently it was authorised
+	// deleting a backend revokes its agent, whatever characters the ID contains
+	for _, id := range []string{"team/a", "zones/z1/instances/nb-7", "a"} {
+		registerBackend(e, aeBackend{id, "slash-agent@svc", "slash-user@x", []string{"/sl"}})
+	}
+	for _, id := range []string{"team/a", "zones/z1/instances/nb-7"} {
+		if st, _, body := apiCall(adminOAuth, true, "DELETE", "/api/backends/"+id, nil); st != 200 {
+			e.Fail("C17:setup-delete-backend", fmt.Sprintf("deleting backend %s: %d %s", id, st, body), -1, nil, nil, nil)
+		}
+		if st, _, _ := agentCall("slash-agent@svc", id, "no-such-request", "/agent/request", "GET", nil); st != 401 {
+			e.Fail("C17:previous-agent-still-authorised", fmt.Sprintf("backend %q was deleted by an administrator (DELETE answered 200); its former agent then called /agent/request and got status %d", id, st), -1, nil, st, 401)
+		}
+		e.Eval("delete-revokes:"+id, true)
+	}
+	if st, _, _ := agentCall("slash-agent@svc", "a", "no-such-request", "/agent/request", "GET", nil); st == 401 {
+		e.Fail("C17:authorised-agent-refused", "backend \"a\" was never deleted (only \"team/a\" was), yet its registered agent got 401", -1, nil, st, nil)
+	}
 	for i, del := range []bool{false, true} {
 		id := fmt.Sprintf("handover-%d", i)
 		b1 := aeBackend{id, "old-agent@svc", "ho-user@x", []string{"/ho" + fmt.Sprint(i)}}
@@ -413,6 +432,17 @@ func suiteAppAuth(e *vh.Env) {
 		agentCall(b.agent, b.id, "cg-1", "/agent/response", "POST", httpResponseBytes("200 OK", nil, []byte("remembered-page")))
 		r1, ok := await(uc, 10*time.Second)
 		if ok && r1.Status == 200 {
+			// the same path with another query is another request: it is relayed, not answered with the remembered page
+			lv2 := async(func() (int, http.Header, []byte) { return agentCall(b.agent, b.id, "", "/agent/pending", "GET", nil) })
+			uq := async(func() (int, http.Header, []byte) {
+				return userCall(b.endUser, false, "cg-q2", "GET", "/cg/page?x=2", nil, nil)
+			})
+			if pr, okp := await(lv2, 5*time.Second); okp && strings.Contains(string(pr.Body), "cg-q2") {
+				agentCall(b.agent, b.id, "cg-q2", "/agent/response", "POST", httpResponseBytes("200 OK", [][2]string{{"Cache-Control", "no-store"}}, []byte("page-for-x=2")))
+			}
+			if rq, okq := await(uq, 5*time.Second); !okq || string(rq.Body) != "page-for-x=2" {
+				e.Fail("C19:wrong-response", fmt.Sprintf("user %s asked for /cg/page?x=2 after /cg/page?x=1 had been answered; received status %d body %q", b.endUser, rq.Status, truncBytes(rq.Body, 40)), -1, nil, string(rq.Body), "page-for-x=2")
+			}
 			if st, _, body := apiCall(adminOAuth, true, "DELETE", "/api/backends/"+b.id, nil); st != 200 {
 				e.Fail("C17:setup-delete-backend", fmt.Sprintf("deleting backend %s: %d %s", b.id, st, body), -1, nil, nil, nil)
 			}
